@@ -299,6 +299,7 @@ package sfnt
 //@   ensures res != nil && fresh(res) && res.CMapTable == f.CMapTable && res.Outlines == f.Outlines
 //@   modifies nothing
 //@ func (f *Font) Subset(glyphs []glyph.ID) (res *Font)   props: C10
+//@   requires f.Gpos != nil ==> forall i int :: 0 <= i && i < len(f.Gpos.LookupList) ==> f.Gpos.LookupList[i] != nil   // as the reader delivers it
 //@   any p0 uint16, e0 uint16, l0 uint16   // an arbitrary cmap key: the clauses below hold for every key
 //@   let k0 = cmap.Key{p0, e0, l0}
 //@   requires f != nil && len(glyphs) <= 65535
